@@ -262,12 +262,16 @@ def update_connectivity(
     elif primary_dimension not in connectivity.dims:
         raise ValueError("Connectivity variable does not contain primary dimension")
 
+    # The fill value is recorded in the encoding of the new data array.
+    # A _FillValue attribute, as found on a dataset opened with mask_and_scale=False
+    # or constructed in memory, would clash with it when saving.
+    attrs = {key: value for key, value in connectivity.attrs.items() if key != '_FillValue'}
     return _masked_integer_data_array(
         data=values,
         fill_value=fill_value,
         dims=connectivity.dims,
         name=connectivity.name,
-        attrs=connectivity.attrs,
+        attrs=attrs,
     )
 
 
